@@ -1,8 +1,30 @@
 //! Implementation side of driver op `imp` (see /verif/CONTRIBUTING.md).
+//!
+//! Only the `std::path` helpers that `Session::find_import` relies on are
+//! reachable in-process (`find_import` itself is private and needs a real file
+//! system; the whole resolution is tied through the real binary by
+//! checks/c13.py).  `imp parent <hexpath>` = `Path::parent`, `imp join <hexbase>
+//! <hexpath>` = `Path::join`, both displayed exactly as session.rs displays them.
 #![allow(unused_imports, dead_code)]
 use crate::util::*;
+use std::path::Path;
 
 /// `imp <args...>`: one canonical answer line, or `None` for a malformed request.
-pub fn handle(_args: &[&str]) -> Option<String> {
-    None
+pub fn handle(args: &[&str]) -> Option<String> {
+    match args {
+        ["parent", h] => {
+            let p = String::from_utf8(hex_dec(h)?).ok()?;
+            match Path::new(&p).parent() {
+                None => Some("none".into()),
+                Some(q) => Some(format!("some {}", hex_enc(q.display().to_string().as_bytes()))),
+            }
+        }
+        ["join", a, b] => {
+            let a = String::from_utf8(hex_dec(a)?).ok()?;
+            let b = String::from_utf8(hex_dec(b)?).ok()?;
+            let j = Path::new(&a).join(Path::new(&b));
+            Some(hex_enc(j.display().to_string().as_bytes()))
+        }
+        _ => None,
+    }
 }
